@@ -15,6 +15,7 @@ def tok(s): return {'op': 'tok', 's': list(s)}
 def pat(cls, mn=1, many=False): return {'op': 'pat', 'cls': list(cls), 'min': mn, 'many': many}
 def dot(): return {'op': 'dot'}
 def const(v): return {'op': 'const', 'v': val(v)}
+def constbad(): return {'op': 'constbad'}
 def void(): return {'op': 'void'}
 def fail(): return {'op': 'fail'}
 def eof(): return {'op': 'eof'}
@@ -104,7 +105,7 @@ def norm(x):
 
 # ---------------------------------------------------------------- rendering to TatSu EBNF
 
-_ATOM = {'tok', 'pat', 'dot', 'const', 'void', 'fail', 'eof', 'cut', 'emptyclosure', 'group', 'skipgroup', 'opt', 'star',
+_ATOM = {'tok', 'pat', 'dot', 'const', 'constbad', 'void', 'fail', 'eof', 'cut', 'emptyclosure', 'group', 'skipgroup', 'opt', 'star',
          'plus', 'call', 'join'}
 
 
@@ -141,6 +142,8 @@ def render(e, top=False):
     if op == 'const':
         v = e['v']
         return '`' + (''.join(v['v']) if v['t'] == 's' else str(v['v'])) + '`'
+    if op == 'constbad':
+        return '`{1/0}`'
     if op == 'void':
         return '()'
     if op == 'fail':
